@@ -181,6 +181,18 @@ class KDotA:
     """kpoint_convert: the Cartesian k-points satisfy k . a_i = 2 pi kappa_i for a symbolic (non-symmetric) 3x3 lattice."""
 
     def __call__(self, ob, tier, seed):
+        try:
+            return self.prove(ob, tier, seed)
+        except Exception as e:  # noqa: BLE001  (the traced code left the modelled subset)
+            rng = np.random.default_rng(seed)
+            wit = dict(a=(rng.uniform(-2, 2, (3, 3)) + 3 * np.eye(3)).tolist(), kappa=rng.uniform(-1, 1, 3).tolist())
+            ok, info = self.replay(wit)
+            if ok:
+                return Result(REFUTED, backend="native-contract-evaluation", witness=wit, replayed=True, replay_info=info,
+                              detail=f"k.a_i != 2 pi kappa_i natively for a non-symmetric lattice (symbolic trace left the subset: {type(e).__name__}: {e})")
+            return Result(UNDECIDED, backend="engine-A", detail=f"outside subset: {type(e).__name__}: {e}")
+
+    def prove(self, ob, tier, seed):
         C = new_ctx()
         ld = make_loader(native_extra=("eminus",))
         kc = ld.get("eminus.kpoints", "kpoint_convert")
@@ -329,9 +341,17 @@ class BandpathCount:
             return Result(UNDECIDED, backend="engine-Z", detail=f"outside subset: {e}")
         want = z3.If(Nk.e >= nsp, Nk.e, z3.IntVal(nsp))
         for r in res:
+            if r.outcome == "cut":
+                continue
             if r.outcome != "return":
-                return Result(REFUTED, backend="z3", detail=f"bandpath raised {r.outcome} for path {self.path}",
-                              witness=dict(path=self.path, Nk=nsp + 1, clause="count"))
+                # an exception inside the symbolic run: either the code raises for admissible input or the interpreter
+                # left its subset - only a native reproduction makes it a refutation
+                wit = dict(path=self.path, Nk=nsp + 1, clause="count", raised=r.outcome)
+                ok, info = self.replay(wit)
+                if ok:
+                    return Result(REFUTED, backend="native-contract-evaluation", witness=wit, replayed=True, replay_info=info,
+                                  detail=f"bandpath('{self.path}') violates the point-count contract natively ({r.outcome} in the symbolic run)")
+                return Result(UNDECIDED, backend="engine-Z", detail=f"symbolic run ended with {r.outcome}: {r.value}")
             ln = r.value.meta.get("len") if isinstance(r.value, Sym) else None
             if ln is None:
                 return Result(UNDECIDED, backend="engine-Z", detail="result length not tracked")
